@@ -277,6 +277,22 @@ func C10Scenarios(tier string) []*h.Scenario {
 		o.Prune = true
 		out = append(out, o)
 	}
+	// a protected, tainted, empty node that is also cordoned: cordoned nodes are left alone, protected ones
+	// are never removed
+	{
+		s := c10Scenario("c10.expired.protected-node-cordoned", false, 1, "expired")
+		s.Slots = 5
+		inner := s.Init
+		s.Init = func(hh *h.Hist) {
+			inner(hh)
+			for _, n := range hh.W.Nodes {
+				if _, t := h.HasTaint(n, h.TaintKey); t && n.Annotations[h.NoDeleteKey] != "" {
+					n.Spec.Unschedulable = true
+				}
+			}
+		}
+		out = append(out, s)
+	}
 	// a spot group holding a protected tainted node whose instance is no longer listed by the ASG (an
 	// operator detached it for debugging): the annotation protects it there too
 	{
